@@ -1621,8 +1621,9 @@ func runStoreCase(prop string, ops []string) CaseResult {
 	}
 	grocksdb.FakeReset(s.dir)
 	if s.outside && s.observed == 0 {
-		s.outside = false
-		s.fail("*", "a history marked outside-quantifier no longer shows any oracle difference: the documented boundary moved (update the notes and the corpus case)")
+		// the code now copes with a history outside the property's quantifier: that is not a violation of anything, only
+		// a documented boundary that moved - recorded as a tag, never as a failure
+		s.tags["outside-quantifier:no-difference-any-more"] = true
 	}
 	res.Fails = s.fails
 	for t := range s.tags {
